@@ -449,6 +449,24 @@ def c12_text(t, dump, tier):
             res.append(BFinding('C12', 'cmd:Compile', t.tag, 'no-refusal', 'diagnostics exist but Compile returns nil', {'text': t.text}))
         if any(e[0] in ('WriteFile', 'Create', 'Write', 'MkdirAll') for e in effects):
             res.append(BFinding('C12', 'cmd:Compile', t.tag, 'writes-on-error', 'files are written although diagnostics exist: %s' % effects[:3], {'text': t.text}))
+    # the same faults in a file with CRLF line endings, read the way the CLI reads it (the repository's own file reader):
+    # the line a diagnostic names is the line an editor shows, CRLF being one line break
+    if t.faults:
+        try:
+            d2 = symgo.native_dump([t.text.replace('\n', '\r\n')], via_file=True)[0]
+            if not d2.get('panic') and not d2.get('syntax_errors'):
+                M = make_machine(PathCtl())
+                snap = Snapshot(prog, d2).load()
+                m = M.call(PARSER + '.VerifVisit', [snap.tree])
+                got = [int(l) for l, _ in syntax_errors(M, m) if not is_sym(l)]
+                stats['paths'] += 1
+                for cls, a, b in t.faults:
+                    if got and not any(a <= g <= b for g in got):
+                        res.append(BFinding('C12', 'visit', t.tag, 'diag-line-crlf:' + cls,
+                                            'the same text saved with CRLF line endings: fault %s at source lines %d..%d is reported at lines %s' % (cls, a, b, got[:4]),
+                                            {'text': t.text.replace('\n', '\r\n'), 'line_endings': 'CRLF'}))
+        except (Unsupported, GoPanic) as u:
+            stats['inconclusive'].append('crlf variant: %s' % str(u)[:120])
     return res, stats
 
 
@@ -772,6 +790,8 @@ def install_cmd_stubs(M):
     def readfile(M_, a):
         M_.effects.append(('ReadFile', to_pystr(a[0])))
         r = M_.env.get('readfile')
+        if r is None and to_pystr(a[0]) in M_.env.get('fs', {}) and M_.env.get('fs_readable'):
+            r = M_.env['fs'][to_pystr(a[0])]
         if r is None:
             return (None, symgo.mkerr('open %s: no such file or directory' % to_pystr(a[0])))
         return (M_.mkslice(list(r)), None)
@@ -792,6 +812,85 @@ def install_cmd_stubs(M):
         pos[name] = p + len(data)
     M.fs_truncate = fs_truncate
     M.fs_write = fs_write
+    # ---- the rest of the file API a wrapper may reasonably use: stat / temp files / rename / remove.  Modification times are
+    # logical stamps: the DSL source 50, files that existed before the run 100 (a previous compile), files written by the run 200.
+    mt = M.env.setdefault('mtimes', {})
+    FI_T = -5
+
+    def notexist(name):
+        e = symgo.mkerr('stat %s: no such file or directory' % name)
+        e.v.notexist = True
+        return e
+
+    def stat(M_, a):
+        name = to_pystr(a[0])
+        M_.effects.append(('Stat', name))
+        if name in fs:
+            return (Iface(FI_T, {'name': name, 'size': len(fs[name]), 'mtime': mt.get(name, 100)}), None)
+        if name in ('in.dsl',) or name == M_.env.get('dsl_name'):
+            return (Iface(FI_T, {'name': name, 'size': 1, 'mtime': 50}), None)
+        return (None, notexist(name))
+    M.intr['os.Stat'] = stat
+    M.intr['os.Lstat'] = stat
+    M.intr['invoke:%d.Size' % FI_T] = lambda M_, a: a[0]['size']
+    M.intr['invoke:%d.Name' % FI_T] = lambda M_, a: a[0]['name'].split('/')[-1]
+    M.intr['invoke:%d.IsDir' % FI_T] = lambda M_, a: False
+    M.intr['invoke:%d.Mode' % FI_T] = lambda M_, a: 0o644
+    M.intr['invoke:%d.ModTime' % FI_T] = lambda M_, a: ['time', 2026, a[0]['mtime']]
+
+    def tstamp(t):
+        return t[2] if isinstance(t, list) and len(t) > 2 else 150
+    M.intr['(time.Time).Before'] = lambda M_, a: tstamp(a[0]) < tstamp(a[1])
+    M.intr['(time.Time).After'] = lambda M_, a: tstamp(a[0]) > tstamp(a[1])
+    M.intr['(time.Time).Equal'] = lambda M_, a: tstamp(a[0]) == tstamp(a[1])
+    M.intr['(time.Time).IsZero'] = lambda M_, a: False
+    M.intr['os.IsNotExist'] = lambda M_, a: bool(a[0] is not None and getattr(a[0].v, 'notexist', False))
+    M.intr['os.IsExist'] = lambda M_, a: False
+
+    def createtemp(M_, a):
+        d, pat = to_pystr(a[0]), to_pystr(a[1])
+        n = M_.env['tmp_n'] = M_.env.get('tmp_n', 0) + 1
+        rnd = 'RND%d' % n
+        name = (d.rstrip('/') + '/' if d else '/tmp/') + (pat.replace('*', rnd, 1) if '*' in pat else pat + rnd)
+        M_.effects.append(('CreateTemp', name))
+        e = M_.env.get('create_err')
+        if e is not None:
+            return (None, e)
+        fs_truncate(name)
+        mt[name] = 200
+        return (Ptr(Cell([name], tag='os.File')), None)
+    M.intr['os.CreateTemp'] = createtemp
+    M.intr['(*os.File).Name'] = lambda M_, a: M_.load(a[0])[0]
+    M.intr['(*os.File).Sync'] = lambda M_, a: None
+    M.intr['(*os.File).Chmod'] = lambda M_, a: None
+    M.intr['os.Chmod'] = lambda M_, a: None
+
+    def rename(M_, a):
+        old, new = to_pystr(a[0]), to_pystr(a[1])
+        M_.effects.append(('Rename', old, new))
+        if old not in fs:
+            return notexist(old)
+        fs[new] = fs.pop(old)
+        mt[new] = mt.pop(old, 200)
+        pos.pop(old, None)
+        return None
+    M.intr['os.Rename'] = rename
+
+    def remove(M_, a):
+        name = to_pystr(a[0])
+        M_.effects.append(('Remove', name))
+        if name not in fs:
+            return notexist(name)
+        del fs[name]
+        mt.pop(name, None)
+        return None
+    M.intr['os.Remove'] = remove
+    _w0 = M.fs_write
+
+    def fs_write2(name, data):
+        _w0(name, data)
+        mt[name] = 200
+    M.fs_write = fs_write2
 
 
 _orig_make_machine = make_machine
